@@ -4,12 +4,13 @@
 // metatypes that count references and may refuse to be cloned; allocations fail
 // inside clone/merge.
 #include "worlds/common.hpp"
+#include <functional>
 
 using namespace sim;
 using namespace mpt;
 
-enum { OP_NEW, OP_INSERT, OP_ADD, OP_AFTER, OP_BEFORE, OP_UNLINK, OP_MOVE, OP_CLONE, OP_LIST_CLONE, OP_TREE_CLONE, OP_SWAP, OP_RELINK, OP_CLEAR, OP_DESTROY, OP_QUERY, OP_SWITCH };
-static const char *const OPS[] = {"NEW", "INSERT", "ADD", "AFTER", "BEFORE", "UNLINK", "MOVE", "CLONE", "LIST_CLONE", "TREE_CLONE", "SWAP", "RELINK", "CLEAR", "DESTROY", "QUERY", "SWITCH", 0};
+enum { OP_NEW, OP_INSERT, OP_ADD, OP_AFTER, OP_BEFORE, OP_UNLINK, OP_MOVE, OP_CLONE, OP_LIST_CLONE, OP_TREE_CLONE, OP_SWAP, OP_RELINK, OP_CLEAR, OP_DESTROY, OP_QUERY, OP_SWITCH, OP_TEXT_CLONE };
+static const char *const OPS[] = {"NEW", "INSERT", "ADD", "AFTER", "BEFORE", "UNLINK", "MOVE", "CLONE", "LIST_CLONE", "TREE_CLONE", "SWAP", "RELINK", "CLEAR", "DESTROY", "QUERY", "SWITCH", "TEXT_CLONE", 0};
 enum { FL_NONE, FL_ALLOC };
 static const char *const FAULTS[] = {"none", "allocfail", 0};
 static const std::string LONGNAME(300, 'L');  // longer than any node's inline name capacity: stored in its own allocation
@@ -37,6 +38,7 @@ struct HMeta : public metatype {
 };
 
 struct TreeWorld : World {
+	TreeWorld() { registry_global = true; }      // text values register their metatype on first use: process-global by design
 	const char *name() const override { return "tree"; }
 	const char *const *opnames() const override { return OPS; }
 	const char *const *faultnames() const override { return FAULTS; }
@@ -51,7 +53,7 @@ struct TreeWorld : World {
 		for (int i = 0; i < nops; ++i) {
 			Op op;
 			static const int kinds[] = {OP_NEW, OP_NEW, OP_NEW, OP_INSERT, OP_INSERT, OP_INSERT, OP_ADD, OP_ADD, OP_AFTER, OP_BEFORE, OP_UNLINK, OP_UNLINK, OP_MOVE, OP_CLONE, OP_LIST_CLONE, OP_TREE_CLONE, OP_TREE_CLONE,
-			                            OP_SWAP, OP_CLEAR, OP_DESTROY, OP_DESTROY, OP_QUERY};
+			                            OP_SWAP, OP_CLEAR, OP_DESTROY, OP_DESTROY, OP_QUERY, OP_TEXT_CLONE};
 			op.kind = r.pick(kinds); // SWITCH and RELINK (mpt_gnode_switch, mpt_gnode_relink) stay replayable but are not generated: not among the operations of the statement, see DESIGN.md
 			op.a = r.below(64) | (r.below(64) << 8);  // node selectors
 			op.b = r.range(-3, 3);                    // position
@@ -316,6 +318,48 @@ struct TreeWorld : World {
 				{ Sut s; mpt_gnode_switch(x, y); }
 				log.ev("SWITCH %d and %d", idof(x), idof(y));
 				outcome = 1;
+				break;
+			}
+			case OP_TEXT_CLONE: {
+				// a separate small tree whose values are the library's own text values (as a parsed configuration has them): the clone of
+				// the clone still reads the same bytes at every depth - same length, same content
+				static const size_t lens[] = {0, 1, 5, 100, 249, 250, 300};
+				size_t ledger0 = ledger_live();
+				auto mk = [&](const char *name, int lsel) -> node * {
+					node *n; { Sut s; n = mpt_node_new(strlen(name) + 1); if (n && !mpt_identifier_set(&n->ident, name, -1)) { mpt_node_destroy(n); n = 0; } }
+					if (!n) fail("setup", "node for the text clone");
+					if (lsel >= 0) { std::string t(lens[lsel % 7], 'v'); for (size_t k = 0; k < t.size(); ++k) t[k] = (char) ('a' + k % 26); const char *cs = t.c_str(); value v; v.set('s', &cs); Sut s; n->_meta = mpt_meta_new(&v); }
+					return n;
+				};
+				unsigned sel = (unsigned) op.a;
+				node *root = mk("root", (int) (sel % 7)), *a = mk("a", (int) ((sel >> 3) % 7)), *a1 = mk("a1", (int) ((sel >> 6) % 7)), *b = mk("b", (sel & 0x200) ? -1 : (int) ((sel >> 10) % 7));
+				{ Sut s; mpt_gnode_insert(root, 0, a); mpt_gnode_add(a, 0, b); mpt_gnode_insert(a, 0, a1); }
+				struct Rel { node *n; ~Rel() { if (n) { Sut s; mpt_node_clear(n); mpt_node_destroy(n); } } };
+				Rel r0{root};
+				std::function<void(const node *, const node *, const char *, int)> same = [&](const node *s0, const node *c0, const char *what, int depth) {
+					for (; s0 || c0; s0 = s0->next, c0 = c0->next) {
+						if (!s0 || !c0) fail("clone-differs", "%s: the lists at depth %d differ in length", what, depth);
+						size_t ls = 0, lc = 0; const char *ds, *dc; { Sut s; ds = mpt_node_data(s0, &ls); dc = mpt_node_data(c0, &lc); }
+						if ((ds != 0) != (dc != 0)) fail("clone-differs", "%s: at depth %d one node has a value, its counterpart has none", what, depth);
+						if (ds && (ls != lc || memcmp(ds, dc, ls))) fail("clone-differs", "%s: a value of %zu bytes at depth %d reads as %zu bytes in the copy", what, ls, depth, lc);
+						if (mpt_identifier_inequal(&s0->ident, &c0->ident)) fail("clone-differs", "%s: names differ at depth %d", what, depth);
+						same(s0->children, c0->children, what, depth + 1);
+					}
+				};
+				node *c1; uint64_t fired; { Sut s(failn); c1 = mpt_tree_clone(root); fired = g.fired; }
+				if (fired) st.hit("fault:allocfail");
+				log.ev("TEXT_CLONE lengths %zu/%zu/%zu%s -> %s", lens[sel % 7], lens[(sel >> 3) % 7], lens[(sel >> 6) % 7], fired ? " allocfail" : "", c1 ? "ok" : "null");
+				if (!c1) { if (!fired) fail("refused-valid", "clone of a tree with text values refused without allocation fault"); }
+				else {
+					Rel r1{c1};
+					same(root, c1, "clone", 0);
+					node *c2; { Sut s; c2 = mpt_tree_clone(c1); }
+					if (c2) { Rel r2{c2}; same(root, c2, "clone of the clone", 0); }
+					st.hit("probe:text_values_cloned");
+				}
+				r0.~Rel(); r0.n = 0;
+				outcome = c1 ? 1 : 0;
+				(void) ledger0;
 				break;
 			}
 			case OP_RELINK: {
